@@ -377,6 +377,40 @@ func checkRefsFor(p *Program, r *Report) {
 			r.floor("DOUBLE-CHECK", n, 1, "filter constructions in the merged RefsFor")
 		}
 	}
+	// ---- ITER-POSITIONED: the indexed iterator handed out has its block iterator positioned
+	{
+		f := p.MustFunc("(*Reader).refsForIndexed")
+		cfg := &simCfg{
+			Event:  map[string]bool{"(*Reader).seek": true, "(*tableIter).Next": true, "(*Reader).newBlockReader": true, "(*Reader).refsForLinear": true},
+			Pure:   map[string]bool{"(*objRecord).key": true},
+			Inline: map[string]bool{"(*indexedTableRefIter).nextBlock": true, "(*blockReader).start": true},
+			NoInlineDefault: true,
+		}
+		c, _ := runSim(p, f, cfg, nil)
+		n := 0
+		for _, s := range c.Samples {
+			if s.Kind != "ret" || s.Panic || s.St.truth(tEq(s.Vals[1], tNil)) == 0 || s.Vals[0].Op != "alloc" {
+				continue
+			}
+			impl, ok := s.St.mem[mk("field", "Iterator.impl", nil, s.Vals[0]).key]
+			if !ok || impl.val.Op != "alloc" || !strings.Contains(impl.val.Aux, "indexedTableRefIter") && !strings.Contains(impl.val.key, "complit") {
+				continue
+			}
+			tr := impl.val
+			if _, isIdx := s.St.mem[mk("field", "indexedTableRefIter.oid", nil, tr).key]; !isIdx {
+				continue
+			}
+			n++
+			br, has := s.St.mem[mk("field", "blockIter.br", nil, mk("field", "indexedTableRefIter.cur", nil, tr)).key]
+			key := "(*Reader).refsForIndexed / iterator handed out is positioned on a block"
+			if !has || br.val.isNilConst() || s.St.truth(tEq(br.val, tNil)) == 1 {
+				r.violate("ITER-POSITIONED", key, p.pos(f.Pos()), "the indexed RefsFor iterator can be returned without its block iterator positioned on a block (empty position list): its first Next dereferences a nil block reader", witnessOf(p, s.St.trace))
+			} else {
+				r.ok("ITER-POSITIONED", key, "cur.br is set on every successful return")
+			}
+		}
+		r.floor("ITER-POSITIONED", n, 1, "successful returns of the indexed RefsFor")
+	}
 	// ---- OBJ-INDEX-SOURCE: the object index is fed from Value and TargetValue of every ref written
 	{
 		f := p.MustFunc("(*Writer).AddRef")
